@@ -52,6 +52,8 @@ func genVestingWalk(r *rand.Rand, n int) []Step {
 			st = append(st, Step{"a": "vestNow", "u": u, "amt": pick(r, "7", "90", "180", "100000")})
 		case 13:
 			st = append(st, Step{"a": "govVestInfo", "num": float64(pick(r, 1, 2, 3, 5, 10)), "max": float64(pick(r, 1, 3, 3))})
+		case 15:
+			st = append(st, Step{"a": "vestLiquid", "u": u, "d": "uusdc", "amt": pick(r, "1000", "7", "500000")})
 		case 14:
 			// Eden / EdenB in and out of the committed bucket (uncommitting Eden burns EdenB proportionally)
 			st = append(st, Step{"a": pick(r, "commitClaimed", "commitClaimed", "uncommit"), "u": u, "d": pick(r, "ueden", "uedenb"), "frac": pick(r, "third", "half", "all", "one")})
